@@ -287,6 +287,19 @@ func c01Run(c *fw.Ctx) {
 		if xhr {
 			hdr.Set("X-Requested-With", "XMLHttpRequest")
 		}
+		if path == "/oauth2/auth" {
+			// the headers by which a front end doing sub-requests names the original request — client-chosen
+			switch x.Choose("original-request-header", 4) {
+			case 1:
+				hdr.Set("X-Original-URI", "/public/a?x=1")
+			case 2:
+				hdr.Set("X-Forwarded-Uri", "/public/a")
+				hdr.Set("X-Forwarded-Method", "OPTIONS")
+			case 3:
+				hdr.Set("X-Original-URL", "https://"+hostA+"/public/a")
+				hdr.Set("X-Original-Method", "OPTIONS")
+			}
+		}
 		req := harness.NewRequest(method, path, hostA, hdr, nil)
 		resp := e.Do(req)
 		if !owned {
@@ -413,7 +426,7 @@ func init() {
 		ID:    "C01",
 		Level: "exploration",
 		Rule: "full cartesian product, on a proxy built like cmd/sso-proxy (YAML -> SetUpstreamConfigs -> proxy.New, real cookie store/AES-SIV cipher/SSOProvider/reverse proxy to recording backends over loopback): " +
-			"policy {rule subsets of address/domain/group} x {no skip-auth, ^/public/, +unanchored /public2/} (x preflight in thorough), plus two policies with the admission-unrelated options skip_request_signing, tls_skip_verify, preserve_host and flush_interval switched on; request {GET,OPTIONS(,POST)} x 12 paths (incl. encoded traversal, query/fragment look-alikes, /oauth2/auth, /favicon.ico, case variant) x XHR; " +
+			"policy {rule subsets of address/domain/group} x {no skip-auth, ^/public/, +unanchored /public2/} (x preflight in thorough), plus two policies with the admission-unrelated options skip_request_signing, tls_skip_verify, preserve_host and flush_interval switched on; request {GET,OPTIONS(,POST)} x 12 paths (incl. encoded traversal, query/fragment look-alikes, /oauth2/auth (also with X-Original-URI / X-Forwarded-Uri / X-Original-URL naming a skip-auth path), /favicon.ico, case variant) x XHR; " +
 			"cookie {absent, garbage, sealed under another key, genuine x slug{right,wrong} x bound host{this,other upstream,empty(,case variant)} x lifetime/refresh/valid each {future,past} x user{address-rule,domain-rule,group-rule,no-rule,empty} x refresh token{yes,no}}; " +
 			"authenticator answers chosen on demand at every back-channel call: validate{200,401,500,503(,429)} refresh{201,401,403,500,503(,429)} profile{in group,in none,500,malformed,503(,429)}; for sessions with a due check the recorded outage start is {none, older than the grace TTL}. " +
 			"Oracle (one direction, 'only if'): backend reached or 202 on /oauth2/auth => reference session model admits (or the received path matches a configured skip pattern); otherwise status in {302 to the configured sign-in URL, 301, 4xx, 5xx} and no upstream content. " +
